@@ -71,8 +71,9 @@ def _user_equation_class(lkind):
             resid: Callable = eqx.field(static=True, kw_only=True, default=None)
 
             def equation(self, t, u, p):
-                t = jnp.atleast_1d(t)
-                return self.resid(t, u(t, p), p)
+                # the time is used AS GIVEN (a 0-d value for the documented 1-D temporal batch): the shape of a residual built from
+                # it follows the shape the loss hands over
+                return self.resid([t], u(t, p), p)
         cls = UserEquationODE
     elif lkind == "statio":
         class UserEquationStatio(PDEStatio):
@@ -225,8 +226,11 @@ def build_loss(rec, derivative_keys=None):
             u0 = rec["ic"]["u0"]
             if rec.get("icret") == "grid":        # values on the grid of points, no component axis (one-output separable network)
                 kw.update(initial_condition_fun=lambda x: polyeval(u0[0], [x[..., i] for i in range(dim)]) + 0.0 * x[..., 0])
-            else:
+            elif spinn:
                 kw.update(initial_condition_fun=lambda x: jnp.stack([polyeval(c, [x[..., i] for i in range(dim)]) + 0.0 * x[..., 0] for c in u0], axis=-1))
+            else:
+                # plain networks: the initial function is a function of ONE point of shape (dim,) (it indexes the coordinates of that point)
+                kw.update(initial_condition_fun=lambda x: jnp.stack([polyeval(c, [x[i] for i in range(dim)]) + 0.0 * x[0] for c in u0]))
         loss = jinns.loss.LossPDENonStatio(u=u, dynamic_loss=dyn, loss_weights=lw, obs_slice=jnp.s_[osl[0] - 1:osl[1]], params=params,
                                            derivative_keys=derivative_keys, **kw)
     # batch
@@ -782,6 +786,9 @@ def run_gradbatch(task):
             else:
                 if form == "default":
                     l = eqx.tree_at(lambda l: l.derivative_keys, loss0, DK(params=params))
+                elif form == "bool_partial":      # the plain constructor with only SOME terms given as boolean trees: the others default
+                    l = with_keys(DK(params=params, **{field[t]: mk_mask([bool(v) for v in m["mask"][k]])
+                                                       for k, t in enumerate(terms) if m["given"][k]}))
                 elif form == "bool_rev":   # boolean tree whose equation-parameter keys are written in another order than params
                     def mk_rev(b):
                         return Params(nn_params=bool(b[0]), eq_params=dict({"k2": bool(b[2]), "k1": bool(b[1])}, **({"k3": True} if pbatch else {})))
